@@ -5,6 +5,7 @@ _Bool g_tok_on; uint64_t g_tok_obj, g_tok_off; int g_tokval;
 uint64_t g_blk_obj, g_blk_bytes; int g_blk_state;
 uint64_t g_nalloc, g_ndealloc, g_nrealloc, g_nctor, g_nassign, g_ndtor, g_nmove, g_nbytecopy, g_ncmp;
 _Bool g_allow_elem_throw, g_allow_alloc_fail;
+uint64_t g_tmp_obj; _Bool g_tmp_has; int g_tmp_val;
 uint64_t g_cmp_obj1, g_cmp_off1, g_cmp_n1, g_cmp_obj2, g_cmp_off2, g_cmp_n2; int g_cmp_kind;
 
 /* ghost state and logical variables are arbitrary at the start of every proof (statics would otherwise be zero) */
@@ -24,8 +25,9 @@ static void l0_havoc(void) {
   /* counters far from wrap-around */
   __CPROVER_assume(g_nalloc < (1UL << 40) && g_ndealloc < (1UL << 40) && g_nrealloc < (1UL << 40) && g_nctor < (1UL << 40) &&
                    g_nassign < (1UL << 40) && g_ndtor < (1UL << 40) && g_nmove < (1UL << 40) && g_nbytecopy < (1UL << 40) && g_ncmp < (1UL << 40));
+  g_tmp_obj = 0; g_tmp_has = 0; g_tmp_val = 0;
   g_allow_elem_throw = nondet_bool(); g_allow_alloc_fail = nondet_bool();
-  g_N = nondet_u64(); g_alias = nondet_bool(); g_src = nondet_u64(); g_pos = nondet_u64(); g_pos2 = nondet_u64();
+  g_N = nondet_u64(); g_alias = nondet_bool(); g_src = nondet_u64(); g_pos = nondet_u64(); g_pos2 = nondet_u64(); g_cnt = nondet_u64();
   __CPROVER_assume(g_src < (1UL << 32) && g_pos < (1UL << 32) && g_pos2 < (1UL << 32) && g_N < (1UL << 32));
   pre_self = nondet_vsnap(); pre_o = nondet_vsnap(); pre_g = nondet_gsnap();
 }
